@@ -144,7 +144,9 @@ def run_units(units, pid):
         if not group:
             continue
         results.append(run_one(group[0], metas))
-        with concurrent.futures.ThreadPoolExecutor(max_workers=4) as ex:
+        # the in-place skip-list instances need 10-20 GB each in CBMC: two at a time (four ran out of memory on the 62 GB machine)
+        heavy = any(u.get('timeout', 900) >= 1500 for u in group)
+        with concurrent.futures.ThreadPoolExecutor(max_workers=2 if heavy else 4) as ex:
             for r in ex.map(lambda u: run_one(u, metas), group[1:]):
                 results.append(r)
     return results
